@@ -594,6 +594,10 @@ func genOptions(rt *rapid.T, c *Case, ids []string, sp OptSpec) {
 	if !(sp.DefaultsOK && chance(rt, "ls_default", 1, 6)) {
 		c.LS = ptr(dim("ls", sp.LSZero))
 	}
+	// junk in the X/Y fields of the size map's values (Case.SizeMap): they are not part of a size
+	if c.Sizes != nil && chance(rt, "size_xy?", 1, 6) {
+		c.SizeXY = 1 + pick(rt, "size_xy", 2)
+	}
 	// how the configuration is spelled as an option list (Case.Options): 1 case in 5 is not canonical - defaults spelled
 	// out, reverse order, or every explicit setting preceded by a decoy value that the later option overrides
 	if chance(rt, "optstyle?", 1, 5) {
